@@ -222,6 +222,19 @@ fn c04_bulk(report: &mut Report, tier: Tier) {
         let second: Vec<Vec<f32>> = (0..2).map(|k| (0..d).map(|j| if k % 2 == 0 { -1.0 } else { 1.0 } * big * (1.0 - 0.013 * ((k + 2 * j) % 4) as f32)).collect()).collect();
         datasets.push(("huge-one-sign-euclidean-d4".to_string(), Metric::Euclidean, d, first, second));
     }
+    // two dimensions, enormous vectors near the diagonal: against a unit normal within ~38 degrees of the
+    // diagonal both terms of the margin have one sign and their sum overflows to that sign's infinity in any
+    // order (a certain verdict); against every other normal nothing overflows. The items are therefore judged
+    // under nearly every plane, and the budget-1 self lookups follow margins that are infinite (C04-h)
+    {
+        let d = 2usize;
+        let big = f32::MAX * 0.9;
+        let mut first: Vec<Vec<f32>> = (0..40).map(|i| { let th = i as f32 * 0.37; let r = 1.0 + (i % 5) as f32; vec![r * th.cos(), r * th.sin()] }).collect();
+        first.push(vec![big, big * 0.97]);
+        first.push(vec![-big * 0.98, -big]);
+        let second: Vec<Vec<f32>> = vec![vec![big * 0.95, big], vec![-big, -big * 0.96], vec![0.3, -2.5], vec![-1.5, 0.4]];
+        datasets.push(("huge-diagonal-euclidean-d2".to_string(), Metric::Euclidean, d, first, second));
+    }
     // many enormous vectors in one node: the centroids of the split construction overflow (x * c + x, p - q)
     {
         let d = 4usize;
@@ -265,7 +278,16 @@ fn c04_bulk(report: &mut Report, tier: Tier) {
                                 }
                             }
                             let mut rng = <rand::rngs::StdRng as rand::SeedableRng>::seed_from_u64(crate::common::verif_seed() + round as u64 + 1000 * seed_k);
-                            w.builder(&mut rng).n_trees(n_trees).build(&mut wtxn).map_err(|e| ("R/bulk-build".to_string(), e.to_string()))?;
+                            {
+                                let mut b = w.builder(&mut rng);
+                                b.n_trees(n_trees);
+                                // shallow trees for the diagonal dataset: the nodes stay large, so an enormous item is rarely
+                                // drawn as a centroid (which zeroes the normal) and most planes above it are proper ones
+                                if label.contains("diagonal") {
+                                    b.split_after(24);
+                                }
+                                b.build(&mut wtxn).map_err(|e| ("R/bulk-build".to_string(), e.to_string()))?;
+                            }
                             let kv = s.dump(&wtxn);
                             let ix = decode_index(&kv, 0, *metric, *d).map_err(|e| ("F/undecodable".to_string(), e))?;
                             crate::oracle::structure(&ix, &model.keys().copied().collect(), *metric, *d)?;
